@@ -234,6 +234,7 @@ def run(ctx):
         for key, msg in guarded(check_case, ctx, c):
             ctx.violation(key, msg, c)
     pipe = [c for c in res.emitted if c["k"] == "expand" and c["ns"]]
+    pipe.sort(key=lambda c: json.dumps([c["ns"], c["mx"]]))     # TLC's emission order varies
     rng.shuffle(pipe)
     for c in pipe[: 150 if ctx.tier == "quick" else 1500]:
         pc = {"k": "pipeline", "ns": c["ns"], "mx": c["mx"], "seed": ctx.seed}
